@@ -436,7 +436,10 @@ Definition classify_stream (h got : list st) (closed : bool) (lo hi ulo uhi : na
    missing (k = number of whole grace periods between the cancel and the close), all of them among the
    values that had not yet reached the wrapped channel when the context was cancelled: with [c] a lower
    bound of the number of changes at the cancel, the changes up to c - 2 cannot be affected (the last
-   two completed changes may still sit in the forwarder's hand and the manager channel).  Order is kept
+   two completed changes may still sit in the forwarder's hand and the manager channel), and neither can
+   any of the [rcv] values the consumer had ALREADY RECEIVED when the context was cancelled: while the
+   subscription is live nothing is ever discarded, whatever the consumer's speed below the broadcast
+   timeout - a value missing among the first [rcv] is a loss on a live subscription.  Order is kept
    and s0 - put into the wrapped channel by GetStateChan itself - is never lost.
    The driver uses this classification only for a subscriber whose close was seen at least one grace
    period after its cancel (measured by the harness): such a subscriber is counted as "slow after
@@ -449,12 +452,13 @@ Fixpoint fits_lossy (got exp : list st) (skip k : nat) : bool :=
     || (match skip, k with O, S k' => fits_lossy got exp' 0 k' | _, _ => false end)
   end.
 
-Definition classify_slow (h got : list st) (lo hi ulo uhi k : nat) : bool :=
+Definition classify_slow (h got : list st) (lo hi ulo uhi k rcv : nat) : bool :=
   existsb (fun g =>
     existsb (fun r =>
       existsb (fun u => Nat.leb g u &&
                         match got with
-                        | x :: got' => st_eqb x (state_at h r) && fits_lossy got' (segment h g u) (ulo - 2 - g) k
+                        | x :: got' => st_eqb x (state_at h r) &&
+                                       fits_lossy got' (segment h g u) (Nat.max (ulo - 2 - g) (rcv - 1)) k
                         | [] => false
                         end)
               (range ulo (S (uhi - ulo))))
